@@ -83,7 +83,7 @@ func ConstEntries() []Entry {
 			// spellings of integer constants, also OUT OF RANGE for their type (LLVM and the
 			// library accept them; LLVM keeps the low bits) and values the printer renders in
 			// hexadecimal; as a global initialiser and as an instruction operand.
-			lits := []tc{{"i32", "7"}, {"i8", "4096"}, {"i8", "300"}, {"i8", "256"}, {"i8", "-129"}, {"i8", "-4096"}, {"i8", "8192"}, {"i16", "1048576"}, {"i16", "65536"}, {"i32", "4294967296"}, {"i32", "4096"}, {"i32", "u0x1000"}, {"i32", "-4096"}, {"i64", "65536"}, {"i64", "18446744073709551616"}, {"i8", "u0xFF"}, {"i8", "s0xFF"}, {"i8", "u0x1FF"}, {"i4", "s0xFF"}, {"i4", "u0x1F"}, {"i1", "1"}, {"i1", "0"}, {"i1", "2"}, {"i33", "8589934591"}, {"i128", "340282366920938463463374607431768211456"}, {"i32", "007"}, {"i32", "-0"}, {"i32", "010"}, {"i32", "0755"}, {"i8", "09"}, {"i64", "0100"}, {"i32", "-010"}, {"i32", "00"}, {"i16", "u0x0010"}, {"i16", "s0x0010"}}
+			lits := []tc{{"i32", "7"}, {"i8", "4096"}, {"i8", "300"}, {"i8", "256"}, {"i8", "-129"}, {"i8", "-4096"}, {"i8", "8192"}, {"i16", "1048576"}, {"i16", "65536"}, {"i32", "4294967296"}, {"i32", "4096"}, {"i32", "u0x1000"}, {"i32", "-4096"}, {"i64", "65536"}, {"i64", "18446744073709551616"}, {"i8", "u0xFF"}, {"i8", "s0xFF"}, {"i8", "u0x1FF"}, {"i4", "s0xFF"}, {"i4", "u0x1F"}, {"i1", "1"}, {"i1", "0"}, {"i1", "2"}, {"i33", "8589934591"}, {"i128", "340282366920938463463374607431768211456"}, {"i32", "007"}, {"i32", "-0"}, {"i32", "010"}, {"i32", "0755"}, {"i8", "09"}, {"i64", "0100"}, {"i32", "-010"}, {"i32", "00"}, {"i16", "u0x0010"}, {"i16", "s0x8010"}, {"i16", "s0x0FFF0"}}
 			x := lits[f.N("literal", len(lits))]
 			if f.Flip("operand") {
 				f.Func("void")
